@@ -153,6 +153,8 @@ theorem ctsOf_isSome (pts dts : Nat) (_hp : pts < 2^64) (_hd : dts < 2^64) (_hc 
     (_hs : pts < 2^63 ↔ dts < 2^63) : (ctsOf pts dts).isNone = false := by
   simp [ctsOf]
 
+theorem ctsOf_isNone_false (pts dts : Nat) : (ctsOf pts dts).isNone = false := by simp [ctsOf]
+
 theorem adtsToRaw_ne_nil (f r : Bytes) (h : adtsToRaw f = .ok r) : r ≠ [] := by
   rw [adtsToRaw_ok_iff] at h
   obtain ⟨⟨_, _, _, _, _, _, _, g8, g9⟩, rfl⟩ := h
